@@ -4,7 +4,8 @@ Correspondence: the REAL `ThreadedServer`, `ThreadPoolServer`, `OneShotServer` (
 (in a subprocess), over TCP (port 0) and unix sockets, with and without an authenticator, driven by operation
 sequences with 1-4 clients (connect with good / failing / slow credentials - the authenticator blocked reading, the
 credentials sent by a later operation, so that a close can fall in between -, call, graceful close, abrupt close, server
-close at any point, closing again, further operations after the close), against the bookkeeping automaton
+close at any point, closing again, further operations after the close; clients whose service's on_disconnect blocks and
+that have left when the close comes; servers configured with a `before_closed` hook), against the bookkeeping automaton
 `Rpyc.Srv` (lean/RpycModel/Srv/Server.lean) through `drv_server`.  After each operation the harness waits (ceiling
 10 s, 3 ms polls — never a fixed sleep) until what it can observe of the real server equals what the model printed:
 what the acting client saw, listener open, accept thread alive, len(server.clients), len(fd_to_conn), poll
@@ -47,6 +48,12 @@ ASSUMPTIONS = [
     "the correspondence, the oracle and the executable model for all four kinds; in Lean they are covered by the local "
     "theorem close_reaches_authenticating_client (any state, threaded / one-shot) rather than by the global invariant, "
     "whose alphabet has connect with good or failing credentials only",
+    "a service whose on_disconnect blocks (`m<k>` ... `h<k>`): modelled for all kinds (phase `closing`; theorem "
+    "close_passes_client_inside_disconnect_hook), run against the real threaded and pool servers (the hook of a forked child "
+    "cannot be released by the harness; a one-shot server's accept thread would sit in it); a `before_closed` hook in the "
+    "server's protocol_config (option \"bc\": invisible to the model) is run on all kinds, on the pool without a close while "
+    "clients are connected (there `close()` asks every connected client for its root and waits sync_request_timeout for each "
+    "that does not answer)",
     "descriptor release is judged after the cyclic garbage collector had a chance (a socket held by the traceback of the "
     "exception that ended its thread is freed by gc, not by the reference count)",
     "`no_residue` is stated for a running server; for a closed one `close_terminates_clients` says every client is "
@@ -237,9 +244,9 @@ def correspondence(ctx):
               "A case is non-trivial if at least one client connected; distinct = distinct (server kind, transport, "
               "authenticator, sequence of (operation kind, client observation)).")
     r = Rng(ctx.seed).fork("c17")
-    ncases = ctx.budget(90, 800)
-    deadline = time.time() + ctx.budget(48, 780)
     cases = corpus()
+    ncases = len(cases) + ctx.budget(45, 720)
+    deadline = time.time() + ctx.budget(44, 780)
     while len(cases) < ncases:
         cases.append(gen_case(r))
     believed = 0
@@ -434,14 +441,19 @@ def shrink(case, sig, known, budget_s=60):
     the full one by the caller)"""
     t0 = time.time()
     ops = list(case["ops"])
-    i = 0
-    while i < len(ops) and time.time() - t0 < budget_s:
-        cand = ops[:i] + ops[i + 1:]
-        res = oracle_case(dict(case, ops=cand), known, ceiling=2.5) if cand else None
-        if res is not None and res[1] == sig:
-            ops = cand
-        else:
-            i += 1
+    chunk = max(1, len(ops) // 2)
+    while time.time() - t0 < budget_s:
+        i = 0
+        while i < len(ops) and time.time() - t0 < budget_s:
+            cand = ops[:i] + ops[i + chunk:]
+            res = oracle_case(dict(case, ops=cand), known, ceiling=2.5) if cand else None
+            if res is not None and res[1] == sig:
+                ops = cand
+            else:
+                i += chunk
+        if chunk == 1:
+            break
+        chunk = max(1, chunk // 2)
     return dict(case, ops=ops)
 
 
